@@ -24,6 +24,10 @@ def load(path):
     for name, data in members:
         if not name.endswith(".iwa"):
             continue
+        if len(data) >= 4 and data[0] != 0:
+            # not an IWA container (issue-32 ships an OperationStorage.iwa that is something else); the library passes
+            # such members through as opaque files
+            continue
         S, sizes, stored = iwa.stream_of(data, allow_stored=False)
         files[name] = []
         for seg in iwa.parse_segments(S):
